@@ -249,7 +249,7 @@ func TestWorker(t *testing.T) {
 		// thorough: for a sample of programs enumerate the fault position over
 		// (a stride of) every storage event index of the fault-free run
 		enumerated := false
-		if job.Thorough && len(job.Seeds) == 0 && (job.Prop == "C04" || job.Prop == "C08" || job.Prop == "C09" || job.Prop == "C11") && seed%4 == 0 && len(enumQueue) == 0 && !enumDone[seed] {
+		if job.Thorough && len(job.Seeds) == 0 && (job.Prop == "C04" || job.Prop == "C08" || job.Prop == "C09" || job.Prop == "C11") && (c.Scenario == "seq" || c.Scenario == "crash" || c.Scenario == "fault") && seed%4 == 0 && len(enumQueue) == 0 && !enumDone[seed] {
 			enumDone[seed] = true
 			enumQueue = append(enumQueue, enumerate(t, c, wo)...)
 		}
